@@ -5,6 +5,8 @@ proofs : lean/PyAbel/Props/C01.lean
            inverse_error_le               reconstruction error ≤ ‖T‖∞ · consistency error, for every exact inverse pair (T, A)
            step_profile_recovered_exactly daun degree 0 / onion peeling invert the *true* projection (the Abel integral, via
                                           C09.daun0_eq_abel) of every piecewise-constant source exactly, every size
+           exact_projection_recovered_within  a-priori envelope: from the true projection of an L-Lipschitz source, any exact inverse T
+                                          of the degree-0 forward matrix returns the samples within ‖T_i‖₁ · L · (n − ½), every size/pixel
          (with C03: every exact method inverts its own forward operator; with C09: the operators are Abel integrals of
           their basis functions)
 K      : the Lean operator models vs the arrays the implementation builds (methods.corr_operators)
